@@ -581,6 +581,12 @@ void apply_patch(Json& target, const Json& patch, std::error_code& ec)
                 unwinder.stack.emplace_back(detail::op_type::remove,npath,Json::null());
             }
         }
+        else // RFC 6902, section 4: "op" MUST be one of add, remove, replace, move, copy, test
+        {
+            ec = jsonpatch_errc::invalid_patch;
+            unwinder.state =jsoncons::jsonpatch::detail::state_type::abort;
+            return;
+        }
     }
     if (unwinder.state ==jsoncons::jsonpatch::detail::state_type::begin)
     {
